@@ -8,6 +8,7 @@ import SysLoss.Driver.Doc
 import SysLoss.Driver.Diag
 import SysLoss.Driver.Batt
 import SysLoss.Driver.Probe
+import SysLoss.Driver.Reports
 
 open Lean SysLoss
 
@@ -22,6 +23,7 @@ def dispatch (j : Json) : Json :=
   | "diag" => cmdDiag j            -- diagram structure (C19)
   | "batt" => cmdBatt j            -- battery-life loop (C18)
   | "interp" | "ctor" => cmdProbe j  -- interpolators and constructors (C10, C11)
+  | "reports" => if fl then cmdReports (α := Float) j else cmdReports (α := Rat) j   -- params / limits / phases / tree (C16)
   | "ping" => Json.mkObj [("ok", true)]
   | _ => Json.mkObj [("bad-op", cmd)]
 
